@@ -35,7 +35,20 @@ func forwardTaint(seeds ...ssa.Value) map[ssa.Value]bool {
 			case *ssa.Store:
 				// value stored into a local cell: loads of the cell are tainted
 				if x.Val == v {
-					if a, ok := x.Addr.(*ssa.Alloc); ok && !t[a] {
+					// into a local cell, or into an element/field of a local aggregate (variadic argument arrays)
+					addr := x.Addr
+					for d := 0; d < 4; d++ {
+						switch y := addr.(type) {
+						case *ssa.IndexAddr:
+							addr = y.X
+							continue
+						case *ssa.FieldAddr:
+							addr = y.X
+							continue
+						}
+						break
+					}
+					if a, ok := addr.(*ssa.Alloc); ok && !t[a] {
 						t[a] = true
 						work = append(work, a)
 					}
